@@ -160,7 +160,15 @@ class Layout:
                 target = self.types[t]
                 if f["presence"] == "optional" and target["k"] == "type" and target["presence"] == "required":
                     target = dict(target, presence="optional")
-            constant = (target["k"] == "type" and target["presence"] == "constant") or f["presence"] == "constant"
+            # sbeppc's rule (sbe_schema_validator::get_actual_presence): a field of a named <type> has the type's
+            # presence whatever the field says, a set field is always encoded, an enum field is constant only
+            # if the field says so; fields of built-in primitive types have the field's presence
+            if t in PRIMS or target["k"] == "enum":
+                constant = f["presence"] == "constant"
+            elif target["k"] == "type":
+                constant = target["presence"] == "constant"
+            else:
+                constant = False
             if constant:
                 f["_abs"] = None
                 continue
